@@ -7,6 +7,7 @@
 Never commits anything to /repo."""
 import json, os, subprocess, sys, time
 
+REPO = os.environ.get("VP_RUN_REPO") or "/repo"     # (a background `vp run` works on its own copy of the repository)
 ROOT = os.path.dirname(os.path.dirname(os.path.abspath(__file__)))
 
 # (property, file, old, new, description)
@@ -41,7 +42,7 @@ def sh(cmd, cwd=None, timeout=5400):
 
 def main(args):
     only = set(args)
-    rc, out = sh("git -C /repo status --porcelain")
+    rc, out = sh(f"git -C {REPO} status --porcelain")
     if out.strip():
         print("/repo has uncommitted changes; refusing to run selftest")
         return 2
@@ -53,7 +54,7 @@ def main(args):
                 continue
             if old == new:
                 continue
-            path = os.path.join("/repo", f)
+            path = os.path.join(REPO, f)
             src = open(path).read()
             if src.count(old) < 1:
                 print(f"[selftest] {prop} mutant does not apply any more ({what}) - skipped")
@@ -62,7 +63,7 @@ def main(args):
             open(path, "w").write(src.replace(old, new, 1))
             t0 = time.time()
             rc, out = sh(f"./check {prop} quick", cwd=ROOT)
-            sh("git -C /repo checkout -- .")
+            sh(f"git -C {REPO} checkout -- .")
             viol = [l for l in out.splitlines() if l.startswith("VIOLATION")]
             ok = rc == 1 and viol
             failed += 0 if ok else 1
@@ -78,19 +79,19 @@ def main(args):
             prop = meta["property"]
             if only and prop not in only:
                 continue
-            rc, out = sh(f"git -C /repo apply {os.path.join(sd, d, 'patch.diff')}")
+            rc, out = sh(f"git -C {REPO} apply {os.path.join(sd, d, 'patch.diff')}")
             if rc != 0:
                 print(f"[selftest] seeded/{d} does not apply: {out[:200]}")
                 continue
             rc, out = sh(f"./check {prop} quick", cwd=ROOT)
-            sh("git -C /repo checkout -- .")
+            sh(f"git -C {REPO} checkout -- .")
             viol = [l for l in out.splitlines() if l.startswith("VIOLATION")]
             ok = rc == 1 and viol
             failed += 0 if ok else 1
             print(f"[selftest] seeded/{d} ({prop}) {'CAUGHT' if ok else 'MISSED (exit %d)' % rc}: {meta.get('summary','')[:100]}", flush=True)
             results.append({"seeded": d, "property": prop, "caught": bool(ok), "exit": rc})
     finally:
-        sh("git -C /repo checkout -- .")
+        sh(f"git -C {REPO} checkout -- .")
     os.makedirs(os.path.join(ROOT, "work"), exist_ok=True)
     json.dump(results, open(os.path.join(ROOT, "work", "selftest.json"), "w"), indent=1)
     print(f"[selftest] {len(results)} cases, {failed} missed")
